@@ -18,6 +18,7 @@ Proved (`_partial`): the statement for every URL that `maybePurgeOthers` purges,
 of that URL is in the store when the request is answered; plus which URLs are purged.
 -/
 import SquidModel.Cache.PurgeLemmas
+import SquidModel.Cache.PurgeCanon
 
 namespace SquidModel.C20
 open SquidModel SquidModel.Gen SquidModel.Cache.Purge
@@ -66,6 +67,24 @@ theorem same_host_location_purged_exact (m status : Nat) (u : Uri) (h : Bytes) (
     h ∈ purgedUrls m status u (some h) other ∧ h ∈ purgedUrls m status u other (some h) :=
   ⟨mem_purgedUrls_loc hm hs (headerTarget_abs_same_host habs hsame), mem_purgedUrls_cloc hm hs (headerTarget_abs_same_host habs hsame)⟩
 
+/-- Canonical spelling is enough (second sentence of the property for canonical spellings): for a request URL `u` and ANY URL `u'`
+with the same scheme, host and port whose path starts with `/`, a Location/Content-Location that spells `u'` exactly as
+`AnyP::Uri::absolute()` prints it is recognised as an absolute URL of the same host and purged. -/
+theorem canonical_same_host_location_purged (m status : Nat) (u u' : Uri) (other : Option Bytes)
+    (hm : purgesOthers m = true) (hs : status < 400) (hc : m ≠ PurgeTables.methodConnect) (hmemo : u.absMemo = none)
+    (hsame : u'.scheme = u.scheme ∧ u'.host = u.host ∧ u'.port = u.port ∧ u'.defaultPort = u.defaultPort)
+    (hscheme : u.scheme ≠ [] ∧ ∀ c ∈ u.scheme, c ≠ 0 ∧ c ≠ colon ∧ c ≠ slash ∧ c ≠ 63 ∧ c ≠ 35)
+    (hauth : authorityHttp u ≠ [] ∧ ∀ c ∈ authorityHttp u, c ≠ 0 ∧ c ≠ slash)
+    (p p' : Bytes) (hp : u.path = slash :: p) (hp' : u'.path = slash :: p') :
+    buildAbsolute u' ∈ purgedUrls m status u (some (buildAbsolute u')) other ∧
+    buildAbsolute u' ∈ purgedUrls m status u other (some (buildAbsolute u')) := by
+  obtain ⟨hrel, hsameHosts⟩ := canonical_location_recognised u u' hsame hscheme hauth p p' hp hp'
+  have he : effectiveRequestUri m u = buildAbsolute u := by simp [effectiveRequestUri, hc, absolute, hmemo]
+  have h1 : headerTarget m (if m = PurgeTables.methodConnect then u else afterAbsolute u) (effectiveRequestUri m u) (some (buildAbsolute u'))
+      = some (buildAbsolute u') := by
+    rw [he]; exact headerTarget_abs_same_host hrel hsameHosts
+  exact ⟨mem_purgedUrls_loc hm hs h1, mem_purgedUrls_cloc hm hs h1⟩
+
 /-- An absolute Location that fails `sameUrlHosts` names nothing to purge. -/
 theorem other_host_location_ignored (m : Nat) (u : Uri) (reqUrl h : Bytes)
     (habs : urlIsRelative h = false) (hdiff : sameUrlHosts reqUrl h = false) :
@@ -89,6 +108,49 @@ theorem purged_urls_come_from_request_or_headers (m status : Nat) (u : Uri) (loc
     headerTarget m (if m = PurgeTables.methodConnect then u else afterAbsolute u) (effectiveRequestUri m u) loc = some t ∨
     headerTarget m (if m = PurgeTables.methodConnect then u else afterAbsolute u) (effectiveRequestUri m u) cloc = some t :=
   mem_purgedUrls_cases h
+
+/-- No reply can make Squid purge a URL of another authority: every purged URL is the request URL itself, or starts with the request's
+own `scheme://authority` (relative references are resolved against the request URL), or passed `sameUrlHosts` against the request URL
+(then `sameUrlHosts_sound` applies). -/
+theorem purged_urls_stay_on_the_request_host (m status : Nat) (u : Uri) (loc cloc : Option Bytes) (t : Bytes)
+    (hc : m ≠ PurgeTables.methodConnect) (hmemo : u.absMemo = none)
+    (h : t ∈ purgedUrls m status u loc cloc) :
+    t = buildAbsolute u ∨ (∃ p, t = originPrefix u ++ p) ∨ sameUrlHosts (buildAbsolute u) t = true := by
+  have he : effectiveRequestUri m u = buildAbsolute u := by simp [effectiveRequestUri, hc, absolute, hmemo]
+  have key : ∀ hdr : Option Bytes, headerTarget m (afterAbsolute u) (buildAbsolute u) hdr = some t →
+      t = buildAbsolute u ∨ (∃ p, t = originPrefix u ++ p) ∨ sameUrlHosts (buildAbsolute u) t = true := by
+    intro hdr ht
+    cases hdr with
+    | none => simp [headerTarget] at ht
+    | some v =>
+      by_cases hrel : urlIsRelative v = true
+      · by_cases hsl : hd v = slash
+        · rw [headerTarget_abs_path hc hsl] at ht
+          injection ht with ht
+          right; left
+          exact ⟨encode PurgeTables.PATH v, by rw [← ht]; simp [buildAbsolute, originPrefix, authorityHttp, afterAbsolute]⟩
+        · rw [headerTarget_rel_path hc hrel hsl] at ht
+          injection ht with ht
+          by_cases htouch : PurgeTables.addRelativePathTouches = true
+          · right; left
+            rw [absolute_addRelativePath_of_touch htouch] at ht
+            exact ⟨encode PurgeTables.PATH (mergePath u.path v), by rw [← ht]; simp [buildAbsolute, originPrefix, authorityHttp, afterAbsolute]⟩
+          · left
+            have hno : PurgeTables.addRelativePathTouches = false := by simpa using htouch
+            rw [absolute_addRelativePath_of_no_touch hno] at ht
+            rw [← ht]; simp [absolute, hmemo]
+      · have hrel' : urlIsRelative v = false := by simpa using hrel
+        by_cases hs : sameUrlHosts (buildAbsolute u) v = true
+        · rw [headerTarget_abs_same_host hrel' hs] at ht
+          injection ht with ht
+          right; right; rw [← ht]; exact hs
+        · have hs' : sameUrlHosts (buildAbsolute u) v = false := by simpa using hs
+          rw [headerTarget_abs_other_host hrel' hs'] at ht
+          cases ht
+  rcases mem_purgedUrls_cases h with h | h | h
+  · left; rw [h, he]
+  · rw [if_neg hc, he] at h; exact key loc h
+  · rw [if_neg hc, he] at h; exact key cloc h
 
 /-! ### relative-path references: the memoised absolute form -/
 
@@ -187,6 +249,11 @@ example : purgedUrls mPost 200 uReq (some urlB) none = [urlA, urlB] := by decide
 example : purgedUrls mPost 404 uReq (some urlB) none = [] := by decide
 example : purgedUrls mPost 200 uReq (some [104, 58, 47, 47, 121, 47, 98]) none = [urlA] := by decide   -- other host h://y/b
 example : sameUrlHosts urlA urlB = true ∧ sameUrlHosts urlA [104, 58, 47, 47, 120, 121, 47, 98] = false := by decide
+
+/-- the hypotheses of `canonical_same_host_location_purged` are satisfiable -/
+example : urlB ∈ purgedUrls mPost 200 uReq (some urlB) none :=
+  (canonical_same_host_location_purged mPost 200 uReq { uReq with path := [47, 98] } none (by decide) (by decide) (by decide) rfl
+    ⟨rfl, rfl, rfl, rfl⟩ (by decide) (by decide) [97] [98] rfl rfl).1
 
 /-- plain history: GET a (origin), GET a (hit), POST a → 200, GET a goes back to the origin -/
 example : (run { store := [], gen := 0 }
